@@ -4,7 +4,7 @@ from . import _secp as S
 ID = "C05"
 EXTRA_TARGETS = ["Proofs/EcdsaRefine.vo", "Proofs/EcdsaAbstractInst.vo"]
 LEVEL = "partial"
-RULE = ("keys {1, 2, 3, n-1, n-2, 2^255, 2^255-1, n/2, n/2+1, random} (and rejected ones: 0, n, n+1, 2^256-1, 31/33 bytes) x "
+RULE = ("deterministic members of the leading-zero-byte value class (shared ECDH x, r, s, digest, private key starting with 00; nonces k with x(kG) < 2^248 and < 2^240; digests >= n) in every op that carries such a field; keys {1, 2, 3, n-1, n-2, 2^255, 2^255-1, n/2, n/2+1, random} (and rejected ones: 0, n, n+1, 2^256-1, 31/33 bytes) x "
         "messages of length 0..200 (incl. 55/56/64 and long LCG streams) x {sha256, sha256d} x reverse_k x compression for every "
         "signing entry point (deterministic, sign_message, caller nonce incl. k in {1, 2, n-1}, pre-hashed digest incl. 0, n, 2^256-1 "
         "and wrong lengths, randomised nonce); sign-then-verify with the same and with another key / message / hash / compression; "
@@ -36,6 +36,94 @@ N = S.N
 KEYS = [1, 2, 3, N - 1, N - 2, 2 ** 255, 2 ** 255 - 1, N // 2, N // 2 + 1]
 BADKEYS = ["00" * 32, S.h32(N), S.h32(N + 1), "ff" * 32, "00" * 31, "00" * 32 + "01", ""]
 HASHES = ["sha256", "sha256d"]
+
+# ---- the "leading zero byte" value class, found once by search with _secp.py and re-asserted at generation time ----
+# key pairs whose shared x coordinate x((a*b) G) starts with one / two zero bytes (the first four as in tools/props/c11.py)
+LEADING_ZERO_PAIRS = [
+    (0x300000000000000000000000000000000000000000000000000000000000001f, 0x2222222222222222222222222222222222222222222222222222222222222222),
+    (0x400000000000000000000000000000000000000000000000000000000001017c, 0x2222222222222222222222222222222222222222222222222222222222222222),
+    (0x30000000000000000000000000000000000000000000000000000000000000ab, 0x1111111111111111111111111111111111111111111111111111111111111111),
+    (0x400000000000000000000000000000000000000000000000000000000001db9a, 0x1111111111111111111111111111111111111111111111111111111111111111),
+    (9, 17), (6, 41), (1158, 1), (13, 3433),
+]
+# nonces k with r = x(kG) < 2^248 (one zero byte; the last two: two zero bytes); y(kG) even for 153, 246, odd for the others
+LZ_NONCES = [153, 246, 1158, 1417, 44629, 58165]
+# a private key with a leading zero byte
+LZ_KEY = 0x00c0ffee00000000000000000000000000000000000000000000000000001234
+# (key, message, double-hash, what has a leading zero byte) for the deterministic signer
+LZ_DET = [(1, b"lz62", False, "r"), (1, b"lz49", False, "s"), (LZ_KEY, b"lz81", False, "r"), (LZ_KEY, b"lz190", False, "s"),
+          (1, b"lz37", True, "r"), (1, b"lz56", True, "s"), (LZ_KEY, b"lz210", True, "r"), (LZ_KEY, b"lz10", True, "s")]
+# (key, nonce, message): r and s both with a leading zero byte
+LZ_SIGN_K = [(LZ_KEY, 153, b"lz266"), (LZ_KEY, 1158, b"lz92")]
+# messages whose SHA-256 / double SHA-256 starts with a zero byte; message with a leading-zero s in reversed-nonce mode (key 1)
+LZ_DIGEST_MSG, LZ_DIGEST_MSG_D, LZ_RK_MSG = b"lz372", b"lz637", b"lz135"
+
+
+def lzb(v):
+    return (256 - v.bit_length()) // 8
+
+
+def leading_zero_cases(A, rng, thorough):
+    """deterministic members of the value class 'a 32-byte field starts with 00'"""
+    H = S.h32
+    # ECDH: shared x with leading zero bytes, both directions (ecdh.pair does both), all compression combinations, raw op too
+    pairs = list(LEADING_ZERO_PAIRS)
+    if thorough:
+        for nz in (1, 1, 2):
+            b = rng.randrange(1, N)
+            B = S.pub(b)
+            a0 = rng.randrange(1, N - 10 ** 7)
+            pt, a = S.mul(a0, B), a0
+            for _ in range(400000 if nz == 2 else 4000):
+                if lzb(pt[0]) >= nz:
+                    pairs.append((a, b))
+                    break
+                pt, a = S.add(pt, B), a + 1
+    for (a, b) in pairs:
+        assert lzb(S.mul(a * b % N, S.G)[0]) >= 1
+        for (c1, c2) in ((1, 1), (0, 0), (1, 0), (0, 1)):
+            A("ecdh.pair", [H(a), c1, H(b), c2])
+        A("ecdh.derive", [H(a), S.enc(S.pub(b), True).hex()])
+        A("ecdh.derive", [H(b), S.enc(S.pub(a), False).hex()])
+    # deterministic signer: r or s with a leading zero byte, both hashes; reversed nonce; digests with a leading zero byte
+    for (d, m, double, which) in LZ_DET:
+        r, s_, _ = S.sign_msg(d, m, double)
+        assert lzb(r if which == "r" else s_) >= 1
+        hn = "sha256d" if double else "sha256"
+        A("ecdsa.sign_det", [H(d), 1, m.hex(), hn, 0])
+        A("ecdsa.sign_verify", [H(d), 0, m.hex(), hn, 0, H(d), 1, m.hex(), hn])
+        if not double:
+            A("ecdsa.sign_message", [H(d), 0, m.hex()])
+    A("ecdsa.sign_det", [H(1), 1, LZ_RK_MSG.hex(), "sha256", 1])
+    assert S.h256(LZ_DIGEST_MSG)[0] == 0 and S.h256(LZ_DIGEST_MSG_D, True)[0] == 0
+    for rk in (0, 1):
+        A("ecdsa.sign_det", [H(LZ_KEY), 1, LZ_DIGEST_MSG.hex(), "sha256", rk])
+        A("ecdsa.sign_det", [H(LZ_KEY), 0, LZ_DIGEST_MSG_D.hex(), "sha256d", rk])
+        A("ecdsa.sign_random", [H(LZ_KEY), 1, LZ_DIGEST_MSG.hex(), "sha256", rk, "r:00:32"])
+    A("ecdsa.sign_message", [H(LZ_KEY), 1, LZ_DIGEST_MSG.hex()])
+    # caller nonce: r with one / two leading zero bytes; r and s both
+    for k in LZ_NONCES:
+        assert lzb(S.mul(k, S.G)[0]) >= 1
+        A("ecdsa.sign_k", [H(rng.choice([1, LZ_KEY, rkey(rng)])), rng.randrange(2), H(k), msg_descr(rng)[0], rng.choice(HASHES)])
+    for (d, k, m) in LZ_SIGN_K:
+        r, s_, _ = S.sign(d, k, int.from_bytes(S.h256(m), "big") % N)
+        assert lzb(r) >= 1 and lzb(s_) >= 1
+        A("ecdsa.sign_k", [H(d), 1, H(k), m.hex(), "sha256"])
+        # the same signature through the raw verifiers (fixed-width 32-byte r, s)
+        pk = S.enc(S.pub(d), True).hex()
+        A("ecdsa.verify_digest", [m.hex(), pk, H(r), H(s_), "sha256"])
+        A("ecdsa.verify_message", [m.hex(), pk, H(r), H(s_)])
+        A("ecdsa.verify_hashbuf", [S.h256(m).hex(), pk, H(r), H(s_)])
+    # pre-hashed digests with leading zero bytes, and digests >= n (reduced by the library): signer and verifier
+    d = LZ_KEY
+    pk = S.enc(S.pub(d), False).hex()
+    digs = ["00" + "ab" * 31, "0000" + "cd" * 30, "00" * 16 + "ef" * 16, "00" * 31 + "02", H(N), H(N + 1), "ff" * 32, H(N + 2 ** 128)]
+    for dg in digs:
+        A("ecdsa.sign_digest", [H(d), 1, dg])
+        z = int(dg, 16) % N
+        r, s_, _ = S.sign(d, S.rfc6979(d, z), z)
+        A("ecdsa.verify_hashbuf", [dg, pk, H(r), H(s_)])                       # must verify (z is reduced modulo n)
+        A("ecdsa.verify_hashbuf", [H((int(dg, 16) + 1) % 2 ** 256), pk, H(r), H(s_)])   # neighbour digest: must not
 
 
 def rkey(rng):
@@ -187,6 +275,9 @@ def generate(rng, tier):
     z = int.from_bytes(S.h256(b"abc"), "big") % N
     if z + N < 2 ** 256:
         A("ecdsa.verify_hashbuf", [S.h32(z + N), pk, S.h32(r), S.h32(s)])
+
+    # ---------------------------------------------------------------- leading zero bytes, digests >= n
+    leading_zero_cases(A, rng, thorough)
 
     # ---------------------------------------------------------------- ECDH
     for (a, b) in [(1, 1), (1, 2), (2, N - 1), (N - 1, N - 1), (N - 2, 3), (2 ** 255, N // 2)]:
